@@ -122,6 +122,18 @@ def run(tier):
         add(drive_pv(eid, gen.rand_cat(rng, rng.choice([0, 1, 2, 3]), 'en' if i % 2 else 'ja')))
     stats = TraceStats()
     rejects, stats = validate('traces/CatTrace.tla', events, 'c05', per_shard=15000, stats=stats)
+    from ..trace import binding_demo
+
+    def flip_res(e):
+        if e['e'] == 'rt' and e['ok'] and e['kind'] == 'deco' and e['res']['k'] == 'F':
+            e['res'] = e['res']['l']
+            return e
+
+    def drop_ptok(e):
+        if e['e'] == 'pv' and len(e['ptoks']) > 1:
+            e['ptoks'] = e['ptoks'][:-1]
+            return e
+    demo = binding_demo('traces/CatTrace.tla', events, [('parsed_value_replaced_by_its_left_part', flip_res), ('printed_token_dropped', drop_ptok)], 'c05')
     viols = []
     for (i, clause) in rejects:
         m = metas[i]
@@ -135,6 +147,7 @@ def run(tier):
         'events': {'tlc_vectors_replayed': n_tlc, 'shipped_strings': len(inv), 'random_texts': n_rand, 'of_which_flattened': n_flat,
                    'constructed_values': n_pv},
         'distinct_texts': distinct_texts,
+        'binding_demonstration': demo,
         'samples': [dict(metas[e['id']], kind=e.get('kind', 'pv'), accepted=e.get('ok', e.get('rok'))) for e in
                     (events[0], events[n_tlc // 2], events[n_tlc + 5], events[n_tlc + len(inv) + 4], events[-1])],
         'checker_cmd': stats.cmds[0] if stats.cmds else '',
